@@ -244,6 +244,23 @@ theorem no_address_sources :
     (Gen.C18Sites.sources.filter (fun s => s.scope == "core" &&
       ["pointerfmt", "pointerarg", "address", "reflectmap", "select", "pid", "host", "env", "tmp"].contains s.kind)) = [] := by decide
 
+/-- the files that exist only under the build tag `verif` are the two reviewed hook files -/
+theorem hook_files_reviewed : Gen.C18Sites.hookFiles = reviewedHookFiles := by decide
+
+/-- the sources inside hook files are exactly the reviewed ones, every hook-scope entry of the table lies
+    in a hook file, and no map range lives in hook code -/
+theorem hook_sources_reviewed :
+    hookSources.map (·.key) = reviewedHookSources.map (·.1) ∧
+    hookSources.all (fun s => Gen.C18Sites.hookFiles.contains s.file) = true ∧
+    Gen.C18Sites.sites.filter (·.scope == "hook") = [] := by decide
+
+/-- outside hook code (i.e. in every normal build) the environment is never read and the clock is read
+    only by the reviewed statements (seed == -1, support logs) -/
+theorem env_and_clock_only_reviewed :
+    (Gen.C18Sites.sources.filter (fun s => s.scope != "hook" && s.kind == "env")) = [] ∧
+    (Gen.C18Sites.sources.filter (fun s => s.scope != "hook" && s.kind == "clock")).all
+      (fun s => (reviewedSources.map (·.1)).contains s.key) = true := by decide
+
 /-! ### the hypotheses are satisfiable on non-trivial maps -/
 
 example : nodupKeys [("t1", "A"), ("t2", "B"), ("t3", "A"), ("t4", "C"), ("t5", "B"), ("t6", "A"), ("t7", "C"), ("t8", "A")] = true := by decide
